@@ -140,6 +140,19 @@ pub fn make_payload(p: Payload, tag: u64) -> Box<dyn Error> {
         Payload::InnerIvp => Box::new(bacon_sci::ivp::IVPError::UserError(Box::new(SimFault { tag }))),
         Payload::Silent => Box::new(SilentFault { tag }),
         Payload::Unit => Box::new(UnitFault),
+        Payload::IoInterrupted | Payload::IoWouldBlock | Payload::IoTimedOut => {
+            Box::new(std::io::Error::new(io_kind(p), format!("simfault:{:016x}", tag)))
+        }
+        Payload::TextRetry => format!("temporary failure, transient, please retry (simfault:{:016x})", tag).into(),
+    }
+}
+
+fn io_kind(p: Payload) -> std::io::ErrorKind {
+    match p {
+        Payload::IoInterrupted => std::io::ErrorKind::Interrupted,
+        Payload::IoWouldBlock => std::io::ErrorKind::WouldBlock,
+        Payload::IoTimedOut => std::io::ErrorKind::TimedOut,
+        _ => std::io::ErrorKind::Other,
     }
 }
 
@@ -226,6 +239,8 @@ impl Found {
             Payload::InnerIvp => self.ivp_user_errors >= 2 && self.typed.contains(&tag),
             Payload::Silent => self.silent.contains(&tag),
             Payload::Unit => self.unit,
+            Payload::IoInterrupted | Payload::IoWouldBlock | Payload::IoTimedOut => self.io.contains(&tag),
+            Payload::TextRetry => self.text.contains(&tag),
         }
     }
     pub fn all_tags(&self) -> Vec<u64> {
@@ -260,6 +275,14 @@ pub fn is_original(b: &(dyn Error + 'static), p: Payload, tag: u64) -> bool {
         },
         Payload::Silent => b.downcast_ref::<SilentFault>().map(|f| f.tag) == Some(tag),
         Payload::Unit => b.downcast_ref::<UnitFault>().is_some(),
+        Payload::IoInterrupted | Payload::IoWouldBlock | Payload::IoTimedOut => b
+            .downcast_ref::<std::io::Error>()
+            .map(|e| e.kind() == io_kind(p) && e.to_string() == format!("simfault:{:016x}", tag))
+            .unwrap_or(false),
+        Payload::TextRetry => {
+            b.source().is_none()
+                && b.to_string() == format!("temporary failure, transient, please retry (simfault:{:016x})", tag)
+        }
     }
 }
 
